@@ -963,7 +963,7 @@ def report(ctx, runner, failures, limit=8):
 
 
 EXTRA_AUDIT = ["GojaModel.C17.Refine", "GojaModel.C17.Overlap", "GojaModel.C17.Sort", "GojaModel.C17.Float32", "GojaModel.C17.Bytes"]
-EXTRA_AUDIT_MIN = 120
+EXTRA_AUDIT_MIN = 115
 
 
 def audit_extra(ctx):
